@@ -648,6 +648,12 @@ func (r *stRun) set(a *stAStore, id uint64, upd map[string]interface{}) {
 		q := fmt.Sprintf("SetColumnAttrs(%d, %s)", id, strings.Join(parts, ", "))
 		if a.field != "" {
 			q = fmt.Sprintf("SetRowAttrs(%s, %d, %s)", a.field, id, strings.Join(parts, ", "))
+			if len(parts) >= 2 && r.rng.Intn(2) == 0 {
+				// the same update written as two calls of one query (the executor folds
+				// several SetRowAttrs calls of a query together): same meaning
+				k := 1 + r.rng.Intn(len(parts)-1)
+				q = fmt.Sprintf("SetRowAttrs(%s, %d, %s) SetRowAttrs(%s, %d, %s)", a.field, id, strings.Join(parts[:k], ", "), a.field, id, strings.Join(parts[k:], ", "))
+			}
 		}
 		r.op("%s: query %s", a.name, q)
 		r.guard("C25", "query-setattrs", func() {
